@@ -212,6 +212,10 @@ extern int mpt_axis_set(MPT_STRUCT(axis) *ax, const char *name, MPT_INTERFACE(co
 			ax->format |= MPT_ENUM(TransformLg);
 			ax->intv = 0;
 		}
+		/* text without meaning for intervals */
+		else {
+			return MPT_ERROR(BadValue);
+		}
 		return len < 0 ? len : 0;
 	}
 	if (!strcasecmp(name, "exp") || !strcasecmp(name, "exponent")) {
